@@ -78,6 +78,27 @@ def generate(rng, tier, idx):
             pd = os.path.dirname(par)
             manifests[par].append({'tag': 'MANIFEST', 'path': os.path.relpath(mp, pd or '.'),
                                    'hashes': rng.choice([['SHA256'], ['MD5'], ['BLAKE2B', 'SHA512'], ['SHA1', 'SHA512']])})
+    # second references: a Manifest listed by two Manifests (same directory or the level above),
+    # one of the entries possibly size-only
+    for lv, ms in enumerate(level_m):
+        for j, mp in enumerate(ms):
+            if mp not in parent or rng.random() > 0.3:
+                continue
+            cands = [o for o in (level_m[lv - 1] if lv > 0 else []) + ([ms[0]] if j == 1 else []) if o != parent[mp] and o != mp]
+            if not cands:
+                continue
+            par2 = rng.choice(cands)
+            pd = os.path.dirname(par2)
+            ent2 = {'tag': 'MANIFEST', 'path': os.path.relpath(mp, pd or '.'), 'hashes': rng.choice([[], [], ['SHA256'], ['MD5']])}
+            if rng.random() < 0.5:
+                manifests[par2].insert(0, ent2)
+            else:
+                manifests[par2].append(ent2)
+            if rng.random() < 0.5:
+                # make the ordinary reference the weak one instead
+                for e in manifests[parent[mp]]:
+                    if e['tag'] == 'MANIFEST' and e['path'] == os.path.relpath(mp, os.path.dirname(parent[mp]) or '.'):
+                        e['hashes'], ent2['hashes'] = ent2['hashes'], (e['hashes'] or ['SHA256'])
     # data files
     files = {}
     for lv, d in enumerate(dirs):
@@ -125,7 +146,11 @@ def generate(rng, tier, idx):
             gov = files[p]
             gd = os.path.dirname(gov)
             if kind == 'change':
-                muts.append({'m': 'rewrite', 'p': p, 'c': 'evil content %d' % rng.randrange(1000)})
+                if rng.random() < 0.5:
+                    # same-length change: the rewritten plain Manifests keep their size
+                    muts.append({'m': 'flip', 'p': p, 'pos': rng.randrange(0, 30), 'bit': 1})
+                else:
+                    muts.append({'m': 'rewrite', 'p': p, 'c': 'evil content %d' % rng.randrange(1000)})
                 new_entries = manifests[gov]
                 target = p
             elif kind == 'add':
